@@ -210,6 +210,9 @@ def correspondence(ctx):
     # --- panqec/bsparse.py, all 14 functions, against Model/BSparse.lean (harness/props/c03_bsparse.py)
     from harness.props import c03_bsparse
     streams += c03_bsparse.streams(ctx)
+    # --- pure integer / list helpers of panqec/utils.py against Model/UtilsPure.lean (harness/props/c03_utils.py)
+    from harness.props import c03_utils
+    streams += c03_utils.streams(ctx)
     return streams
 
 
